@@ -95,6 +95,9 @@ func runC18(c *Ctx) {
 	c18PathScope(c, pk)
 	c18V1ExceptPairing(c)
 	c18DisableScope(c, pk)
+	c18PerVisitState(c, pk)
+	c18AccumulatorCarry(c, pk)
+	ruleKeyInjective(c, "KEY-INJECTIVE", "private/bufpkg/bufimage/bufimagemodify/internal")
 	info := pk.TypesInfo
 	fileOptNums := descriptorFieldNumbers(p, "FileOptions")
 	fieldOptNums := descriptorFieldNumbers(p, "FieldOptions")
